@@ -44,6 +44,28 @@ def modelObj (cls : String) (e : Env) : Option (Except PyErr Obj) :=
     else none
   | _ => (classOf cls).map fun c => fill defsTable c e
 
+/-- as `modelObj`, but a restraint looks its DEFS rules up under the name derived from the codeword as written
+    (`nameOf`: upper-cased, residue suffix split off) -/
+def modelObjCw (cls : String) (cw : Option String) (e : Env) : Option (Except PyErr Obj) :=
+  match cw, classOf cls with
+  | some w, some c => some (fill defsTable { c with name := String.ofList (nameOf w.toList) } e)
+  | _, _ => modelObj cls e
+
+def suffixOf (j : Json) : Except String Suffix :=
+  match j with
+  | .null => .ok .none
+  | .str "*" => .ok .star
+  | .str s => .ok (.cls s)
+  | .num _ => (nat j).map Suffix.num
+  | _ => err "C16: bad suffix"
+
+def resiOf (j : Json) : Except String (String × Nat) := do
+  match j with
+  | .arr #[c, n] => return (← str c, ← nat n)
+  | _ => err "C16: bad resi"
+
+def ofResidue (r : String × List Nat) : Json := Json.mkObj [("cls", Json.str r.1), ("nums", Json.arr (r.2.map ofNat).toArray)]
+
 def defsCard : Option CardSlots := classOf "DEFS"
 
 def attrsOp (j : Json) : Except String Json := do
@@ -60,6 +82,16 @@ def attrsOp (j : Json) : Except String Json := do
       | .error _ => none
     | _, _ => none
   let env : Env := ⟨ps, dobj⟩
+  let cw : Option String := match fieldOpt j "codeword" with
+    | some (.str w) => if (classOf sp.cls).any (fun c => c.base == "Restraint") then some w else none
+    | _ => none
+  let modelObj := fun (cls : String) (e : Env) => modelObjCw cls cw e
+  let sfx ← match fieldOpt j "suffix" with
+    | none => pure Suffix.none
+    | some x => suffixOf x
+  let resi ← match fieldOpt j "resi" with
+    | none => pure []
+    | some x => do (← arr x).mapM resiOf
   let model : Json := match modelObj sp.cls env with
     | none => Json.null
     | some (.error x) => Json.mkObj [("raise", Json.str (errName x))]
@@ -71,6 +103,7 @@ def attrsOp (j : Json) : Except String Json := do
     | _ => Json.bool false
   return Json.mkObj [("cls", Json.str sp.cls), ("table", Json.bool (classOf sp.cls).isSome), ("model", model), ("spec", spec),
                      ("model_meets_spec", modelOk),
+                     ("model_res", ofResidue (modelResidue resi sfx)), ("spec_res", ofResidue (specResidue resi sfx)),
                      ("form_ok", Json.bool ((formLens sp).contains ps.length || !sp.finite)),
                      ("ints_ok", Json.bool (intsOK sp ps))]
 
